@@ -198,11 +198,21 @@ func (*Stream).safeGetDataChan
   acquires s.dataChanMux
   ensures result == s.dataChan
 
+// every emitted row is counted as input and handed to the overflow strategy exactly once, whatever it contains
+func (*Stream).Emit
+  props C19
+  modifies *
+  count counted := Inc
+  count handed := ProcessData
+  before ProcessData the-strategy-gets-this-row: $arg1 == data
+  ensures counted-once-and-handed-to-the-strategy-once: $counted == 1 && $handed == 1
+
 func (*Stream).safeSendToDataChan
   props C19
   option channel_events
   acquires s.dataChanMux
   modifies ghost(sends)
+  before chansend the-row-is-offered-while-the-read-lock-pins-the-current-buffer: held(s.dataChanMux) && $arg0 == data
   ensures true-means-enqueued-once: result <==> ghost(sends) == old(ghost(sends)) + 1
   ensures refusal-enqueues-nothing: !result ==> ghost(sends) == old(ghost(sends))
   ensures stopped-or-closed-refuses: old(s.stopped) == 1 || s.dataChan == nil ==> !result
